@@ -108,6 +108,9 @@ func (c *CmdLine) ProcessLine(line string) error {
 
 // Complete is the class method
 func (c *CmdLine) Complete() ([]string, error) {
+	if len(c.proc.lines) == 0 {
+		return []string{}, nil
+	}
 	assembly, err := rassemble.Join(c.proc.lines)
 	if err != nil {
 		return nil, err
